@@ -59,12 +59,14 @@ def gen_cfg(rng: _pyrandom.Random, objects: float = 0.0) -> dict:
 
 def gen_history(rng: _pyrandom.Random, max_ops: int = 12, max_rows: int = 40, malformed: float = 0.1,
                 allow: tuple = ("fit", "refine", "recluster", "setmerge", "setthr", "setbf", "delint", "reset"),
-                objects: float = 0.0, weights: dict | None = None, big: float = 0.06) -> dict:
+                objects: float = 0.0, weights: dict | None = None, big: float = 0.06, force: str | None = None) -> dict:
+    """`force`: "wide" = a node with more than 255 entries, "big" = a cluster beyond 255 members in the first fit
+    (every run starts with a few of each, so that the width boundaries are reached whatever the seed)"""
     F = rng.choice(FS_SMALL * 3 + FS_BIG)
     cfg = gen_cfg(rng, objects)
     n_ops = rng.randint(1, max_ops)
     ops: list[dict] = []
-    wide = rng.random() < big / 2
+    wide = force == "wide" or (force is None and rng.random() < big / 2)
     if wide:
         # a node with more than 255 entries: branching factor 300, near-duplicates that do not merge
         F = max(F, 24)
@@ -79,7 +81,7 @@ def gen_history(rng: _pyrandom.Random, max_ops: int = 12, max_rows: int = 40, ma
             if wide and i == 0:
                 proto = [1 if rng.random() < 0.7 else 0 for _ in range(F)]
                 rows = [[b ^ (1 if rng.random() < 0.04 else 0) for b in proto] for _ in range(rng.choice([310, 330]))]
-            elif rng.random() < big:
+            elif (force == "big" and i == 0) or rng.random() < big:
                 # a large tight group: clusters that cross 127/128 and 255/256 members (width promotion)
                 proto = [1 if rng.random() < 0.6 else 0 for _ in range(F)]
                 nbig = rng.choice([130, 200, 257, 300])
@@ -88,7 +90,11 @@ def gen_history(rng: _pyrandom.Random, max_ops: int = 12, max_rows: int = 40, ma
             else:
                 rows = gen_rows(rng, F, rng.randint(1, max_rows))
             op = {"op": "fit", "F": F, "rows": rows, "form": rng.choice(FORMS), "dtype": rng.choice(INT_DTYPES)}
-            if rng.random() < malformed and len(rows) >= 2:
+            if i > 0 and rng.random() < malformed / 2 and all(o["op"] != "reset" for o in ops):
+                # a whole input with another feature count: refused, nothing changes
+                F2 = F + rng.choice([1, 8, 16]) if F < 9 or rng.random() < 0.5 else F - 8
+                op = {"op": "fit", "F": F2, "rows": gen_rows(rng, F2, rng.randint(1, 5)), "form": rng.choice(FORMS), "dtype": "uint8"}
+            elif rng.random() < malformed and len(rows) >= 2:
                 k = rng.randint(1, len(rows) - 1)
                 badF = F + rng.choice([8, 9, 16]) if rng.random() < 0.5 or F <= 8 else F - 8
                 rows[k] = [rng.randint(0, 1) for _ in range(badF)]
@@ -114,6 +120,9 @@ def gen_history(rng: _pyrandom.Random, max_ops: int = 12, max_rows: int = 40, ma
                 sub["thr"] = rng.choice(THRS)
             if rng.random() < 0.3:
                 sub["bf"] = rng.choice(BFS)
+            if sub["bf"] is None and sub["thr"] is None and rng.random() < 0.3 and not isinstance(sub["crit"], tuple) \
+                    and (sub["crit"] is None) != (sub["tol"] is None):
+                sub["via"] = "attr"     # est.merge_criterion = name / est.tolerance = x
             ops.append({"op": "setmerge", **sub})
         elif name == "setthr":
             ops.append({"op": "setthr", "thr": rng.choice(THRS)})
@@ -292,7 +301,13 @@ class Session:
                 c = op["crit"]
                 if isinstance(c, (tuple, list)):
                     c = get_merge_accept_fn(c[1], c[2])
-                t.set_merge(c, tolerance=op["tol"], threshold=op["thr"], branching_factor=op["bf"])
+                if op.get("via") == "attr":
+                    if c is not None:
+                        t.merge_criterion = c
+                    else:
+                        t.tolerance = op["tol"]
+                else:
+                    t.set_merge(c, tolerance=op["tol"], threshold=op["thr"], branching_factor=op["bf"])
             elif k == "setthr":
                 t.threshold = op["thr"]
             elif k == "setbf":
